@@ -123,7 +123,36 @@ pub fn layout_from(v: &Value) -> Result<Option<StorageLayout>> {
     Ok(Some(StorageLayout::new(name, cfg.as_deref())?))
 }
 
+/// Case information of a string computed with the Rust standard library only (no rocfl code):
+/// per char its UTF-8 text and `char::to_lowercase`, plus `str::to_lowercase` / `str::to_uppercase`
+/// of the whole string.  Input of the C11 model (Unicode case mapping is external to rocfl).
+fn case_info(s: &str) -> Value {
+    let chars: Vec<Value> = s
+        .chars()
+        .map(|c| json!([c.to_string(), c.to_lowercase().collect::<String>()]))
+        .collect();
+    json!({"chars": chars, "lower": s.to_lowercase(), "upper": s.to_uppercase()})
+}
+
 fn layout_line(v: &Value) -> Value {
+    let mut r = layout_line_inner(v);
+    if v["case"].as_bool().unwrap_or(false) {
+        let ids: Vec<Value> = v["ids"]
+            .as_array()
+            .unwrap()
+            .iter()
+            .map(|id| case_info(id.as_str().unwrap()))
+            .collect();
+        let strs: Vec<Value> = v["strs"]
+            .as_array()
+            .map(|a| a.iter().map(|s| case_info(s.as_str().unwrap())).collect())
+            .unwrap_or_default();
+        r["case"] = json!({"ids": ids, "strs": strs});
+    }
+    r
+}
+
+fn layout_line_inner(v: &Value) -> Value {
     let layout = match catch_unwind(AssertUnwindSafe(|| layout_from(v))) {
         Ok(Ok(Some(l))) => l,
         Ok(Ok(None)) => return json!({"new": "none"}),
